@@ -58,8 +58,7 @@ def abandoned_shape(pat, p):
 def check_case(case, rec):
     pat, p, kind = case["pat"], case["p"], case.get("kind", "obj")
     n = len(pat)
-    frames, source, tk = tok.prepare(case)
-    toks = tok.deliver(tk, source, case.get("deliv", "list"))
+    frames, toks = tok.run_case(case)
     classes = {f"kind_{kind}", f"deliv_{case.get('deliv', 'list')}"}
     if case.get("pre"):
         classes.add("reused_tokenizer")
